@@ -421,6 +421,19 @@ where
                 }
             }
         }
+        // the manager is intact: the whole remaining capacity can still be allocated (one worker
+        // only: with several workers free slots may sit in another thread's list, see the open
+        // finding oom-with-free-slots-in-another-threads-list)
+        if !reordered && threads == 1 && out.oom {
+            K::gc(&mr);
+            let now = K::num_inner_nodes(&mr);
+            match fill::<K>(&mr, CAP - now) {
+                Ok(v) => drop(v),
+                Err(e) => {
+                    return Err(format!("capacity-after-oom: after the failed operation, the successful retry, drop and gc() the manager holds {now} nodes but {} further nodes cannot be allocated in a store of {CAP} ({e}; {} nodes in use at the failure)", CAP - now, K::num_inner_nodes(&mr)));
+                }
+            }
+        }
         Ok(())
     })();
     match r {
@@ -463,11 +476,13 @@ where
 }
 
 /// input-based signature of a violation: (kind, script, class)
-fn signature<K: BoolKind>(s: &Script, msg: &str) -> String {
+fn signature<K: BoolKind>(s: &Script, msg: &str, threads: u32) -> String {
     let class = crate::hrun::category(msg);
     match (s, class.as_str()) {
         (Script::Reorder(_), "abort") => "reorder-oom-abort".to_string(),
-        (_, "retry-fails") => "oom-with-free-slots-in-another-threads-list".to_string(),
+        // the open finding needs allocations on two threads; with one worker everything runs
+        // on the calling thread and a failing retry is something else
+        (_, "retry-fails") if threads > 1 => "oom-with-free-slots-in-another-threads-list".to_string(),
         _ => format!("C14/{}/{}/{}", K::NAME, script_name(s), class),
     }
 }
@@ -487,7 +502,7 @@ where
                 continue;
             }
             Err(m) => {
-                rep.viol(signature::<K>(&s, &m), format!("{m} [unconstrained run]"), json!({"kind": K::NAME, "script": s, "set": set, "threads": threads, "free_slots": null}));
+                rep.viol(signature::<K>(&s, &m, threads), format!("{m} [unconstrained run]"), json!({"kind": K::NAME, "script": s, "set": set, "threads": threads, "free_slots": null}));
                 continue;
             }
         };
@@ -496,7 +511,7 @@ where
             if m.starts_with("harness:") {
                 rep.inconclusive.push(format!("{m} [{} {s:?} unconstrained]", K::NAME));
             } else if m != "skip" {
-                rep.viol(signature::<K>(&s, m), format!("{m} [unconstrained run]"), json!({"kind": K::NAME, "script": s, "set": set, "threads": threads, "free_slots": null}));
+                rep.viol(signature::<K>(&s, m, threads), format!("{m} [unconstrained run]"), json!({"kind": K::NAME, "script": s, "set": set, "threads": threads, "free_slots": null}));
             }
             continue;
         }
@@ -514,7 +529,7 @@ where
                         if m.starts_with("harness:") {
                             rep.inconclusive.push(format!("{m} [{} {s:?} c={c}]", K::NAME));
                         } else if m != "skip" {
-                            rep.viol(signature::<K>(&s, &m), format!("{m} [{} free slots, the operation needs {need}]", c), json!({"kind": K::NAME, "script": s, "set": set, "threads": threads, "free_slots": c}));
+                            rep.viol(signature::<K>(&s, &m, threads), format!("{m} [{} free slots, the operation needs {need}]", c), json!({"kind": K::NAME, "script": s, "set": set, "threads": threads, "free_slots": c}));
                         }
                     } else {
                         if o.oom && c > 0 {
@@ -533,7 +548,7 @@ where
                     }
                 }
                 Err(m) if m.starts_with("timeout") => rep.inconclusive.push(format!("{m} [{s:?} c={c}]")),
-                Err(m) => rep.viol(signature::<K>(&s, &m), format!("{m} [{} free slots, the operation needs {need}]", c), json!({"kind": K::NAME, "script": s, "set": set, "threads": threads, "free_slots": c})),
+                Err(m) => rep.viol(signature::<K>(&s, &m, threads), format!("{m} [{} free slots, the operation needs {need}]", c), json!({"kind": K::NAME, "script": s, "set": set, "threads": threads, "free_slots": c})),
             }
         }
         if rep.samples.len() < 2 {
@@ -637,8 +652,15 @@ pub fn run(cfg: &Cfg) -> i32 {
                 0
             }
             Err(m) => {
-                println!("VIOLATION property=C14 replay={path}\n  what: {m}");
-                1
+                let sig = signature::<BddK>(&s, &m, threads);
+                if known("C14", &sig) {
+                    // the point now shows an open known finding (not what the file recorded)
+                    println!("KNOWN-FINDING: property=C14 {sig}: {m}");
+                    0
+                } else {
+                    println!("VIOLATION property=C14 replay={path}\n  what: {m}");
+                    1
+                }
             }
         };
     }
@@ -681,7 +703,7 @@ pub fn run(cfg: &Cfg) -> i32 {
         &total,
         Meta {
             level: "fault_enumeration",
-            rule: "for each DD kind (BDD, BCDD, ZBDD), thread count {1, 4} and scripted operation (var / not_var creation, not, all 8 binary operators, ite, exists/forall/unique, apply_exists/forall/unique, substitute, restrict, pick_cube_dd, pick_cube_dd_set, DDDMP import in ASCII and binary mode, import of a file with complemented edges exported from the complement-edge kind, set_var_order sequential and default) on fixed 4-variable operands in a manager of capacity 90 (below 100: no background collector, slots are handed out one at a time): first the number of node slots the operation consumes is measured (need); then for EVERY c in 0..=need the manager is filled with distinct filler nodes on four extra bottom levels until exactly c free slots remain and the operation is executed in a forked child - so every allocation point of the operation is the failing one in some run. Verdict per point: the call returns Err(OutOfMemory) or the correct table (never panic, abort, hang, wrong handle); afterwards operands keep their tables, structure + reference-count audit passes, dropping the result + gc() returns to operands + fillers (nothing leaked), and after dropping the fillers + gc() the same operation succeeds with the model's result. MTBDD: terminal capacities 1..6 with constant creation and arithmetic creating terminals. Non-trivial = point where the operation failed with c > 0 (it had already allocated nodes it must release). Known finding reorder-oom-abort: points c < need of set_var_order are excluded (counted).",
+            rule: "for each DD kind (BDD, BCDD, ZBDD), thread count {1, 4} and scripted operation (var / not_var creation, not, all 8 binary operators, ite, exists/forall/unique, apply_exists/forall/unique, substitute, restrict, pick_cube_dd, pick_cube_dd_set, DDDMP import in ASCII and binary mode, import of a file with complemented edges exported from the complement-edge kind, set_var_order sequential and default) on fixed 4-variable operands in a manager of capacity 90 (below 100: no background collector, slots are handed out one at a time): first the number of node slots the operation consumes is measured (need); then for EVERY c in 0..=need the manager is filled with distinct filler nodes on four extra bottom levels until exactly c free slots remain and the operation is executed in a forked child - so every allocation point of the operation is the failing one in some run. Verdict per point: the call returns Err(OutOfMemory) or the correct table (never panic, abort, hang, wrong handle); afterwards operands keep their tables, structure + reference-count audit passes, dropping the result + gc() returns to operands + fillers (nothing leaked), and after dropping the fillers + gc() the same operation succeeds with the model's result; with one worker thread the whole remaining capacity (90 - live) must then still be allocatable. MTBDD: terminal capacities 1..6 with constant creation and arithmetic creating terminals. Non-trivial = point where the operation failed with c > 0 (it had already allocated nodes it must release). Known finding reorder-oom-abort: points c < need of set_var_order are excluded (counted).",
             assumptions: vec!["index backend only: the pointer backend has no capacity parameter".into(), "the need of an operation is deterministic for threads = 1; with 4 threads a point may succeed or fail depending on scheduling, both are accepted if the verdict conditions hold".into()],
             extra: json!({"capacity": CAP}),
         },
